@@ -27,14 +27,16 @@ def ewald_constants(repo):
     path = os.path.join(repo, "pyqmc/observables/ewald.py")
 
     def h_sum(se, args, kw, env):
-        src = ast.unparse(args[0]).replace(" ", "")
-        if src == "self.atom_charges":
+        # np.sum over the ion charges Z (a per-ion quantity): sum Z = S1, sum Z^2 = S2 — recognised by value, not by spelling
+        v = se.ev(args[0], env)
+        Z = ("s", "Z")
+        if v == Z:
             return ("s", "S1")
-        if src == "self.atom_charges**2":
+        if v in (("pow", Z, 2), ("mul", Z, Z)):
             return ("s", "S2")
-        raise TranslationError("np.sum(%s)" % src)
+        raise TranslationError("np.sum(%s)" % ast.unparse(args[0]))
 
-    handlers = {"np.sum": h_sum, "np.pi": sym("PI"), "self.alpha": sym("alpha"), "self.ewald_ion": sym("ion_ion_sum")}
+    handlers = {"np.sum": h_sum, "np.pi": sym("PI"), "self.alpha": sym("alpha"), "self.ewald_ion": sym("ion_ion_sum"), "self.atom_charges": sym("Z")}
     se = SymExec(handlers)
     env = {"cellvolume": ("s", "V")}
     fn = method(path, "Ewald", "set_ewald_constants")
